@@ -22,6 +22,8 @@ import RV.Lemmas.ClosedLoopStepBr
 import RV.Lemmas.ClosedLoopLabels
 import RV.Lemmas.ClosedLoopGate
 import RV.Lemmas.ClosedLoopMono
+import RV.Lemmas.ClosedLoopDelRo
+import RV.Lemmas.ClosedLoopDelRest
 import RV.Props.ExecutorThms
 namespace RV.Props.ClosedLoop
 open RV.Arith RV.Traffic RV.RolloutSM RV.ClosedLoop RV.Oracle.ClosedLoop RV.Oracle.Batch RV.Lemmas.ClosedLoop
@@ -411,6 +413,77 @@ theorem Reach.snoc (s0 s s' : CS) (ls : List Label) (l : Label) (hr : Reach s0 l
   | nil s => exact Reach.cons s s' s' l [] hl hs (Reach.nil s')
   | cons a b c l' ls' hl' hs' _ ih => exact Reach.cons a b s' l' _ hl' hs' (ih hl hs)
 
+/-! ### 1b. `loop_total` with deletion of the Rollout (C09)
+
+The label set is widened by `delete` (the user deletes the Rollout) at any point of a forward history; afterwards every
+label but a new release is legal again (`legalD`).  The invariant is `fwdInv ∨ delInv`. -/
+
+/-- histories that may delete the Rollout -/
+inductive ReachD : CS → List Label → CS → Prop
+  | nil (s : CS) : ReachD s [] s
+  | cons (s s' s'' : CS) (l : Label) (ls : List Label) :
+      legalD s l = true → step s l = some s' → ReachD s' ls s'' → ReachD s (l :: ls) s''
+
+theorem safe_step (s : CS) (l : Label) (h : fwdInv s = true ∨ delInv s = true) (hl : legalD s l = true) :
+    ∃ s', step s l = some s' ∧ (fwdInv s' = true ∨ delInv s' = true) := by
+  rcases h with h | h
+  · cases l with
+    | delete => exact ⟨_, rfl, Or.inr (delete_del s (Or.inl h))⟩
+    | release rev =>
+      have hl' : legal s (.release rev) = true := by
+        simp only [legalD, Bool.and_eq_true] at hl; exact hl.2
+      obtain ⟨t, ht, hi⟩ := fwd_step s _ h hl'
+      exact ⟨t, ht, Or.inl hi⟩
+    | ro => obtain ⟨t, ht, hi⟩ := fwd_step s .ro h rfl; exact ⟨t, ht, Or.inl hi⟩
+    | br => obtain ⟨t, ht, hi⟩ := fwd_step s .br h rfl; exact ⟨t, ht, Or.inl hi⟩
+    | env => obtain ⟨t, ht, hi⟩ := fwd_step s .env h rfl; exact ⟨t, ht, Or.inl hi⟩
+    | approve => obtain ⟨t, ht, hi⟩ := fwd_step s .approve h rfl; exact ⟨t, ht, Or.inl hi⟩
+    | tick => obtain ⟨t, ht, hi⟩ := fwd_step s .tick h rfl; exact ⟨t, ht, Or.inl hi⟩
+    | crash => obtain ⟨t, ht, hi⟩ := fwd_step s .crash h rfl; exact ⟨t, ht, Or.inl hi⟩
+  · cases l with
+    | ro => obtain ⟨t, ht, hi⟩ := stepRo_del s h; exact ⟨t, ht, Or.inr hi⟩
+    | br => obtain ⟨t, ht, hi⟩ := stepBr_del s h; exact ⟨t, ht, Or.inr hi⟩
+    | env => exact ⟨_, rfl, Or.inr (env_del s h)⟩
+    | approve => exact ⟨_, rfl, Or.inr (approve_del s h)⟩
+    | tick => exact ⟨_, rfl, Or.inr (tick_del s h)⟩
+    | crash => exact ⟨_, rfl, Or.inr (crash_del s h)⟩
+    | delete => exact ⟨_, rfl, Or.inr (delete_del s (Or.inr h))⟩
+    | release rev =>
+      exfalso
+      simp only [legalD, Bool.and_eq_true, Bool.not_eq_true'] at hl
+      obtain ⟨⟨hg, hd⟩, _⟩ := hl
+      unfold delInv at h
+      split at h
+      · cases h
+      · simp only [Bool.and_eq_true, Bool.or_eq_true] at h
+        rcases h.2 with hgone | hdel
+        · rw [hg] at hgone; cases hgone
+        · unfold delOK at hdel
+          simp only [Bool.and_eq_true] at hdel
+          rw [hd] at hdel
+          exact absurd hdel.1.1.1.1.1.1.1 (by decide)
+
+/-- **C09 (closed loop, with deletion)** — from `Init`, along every history that may also delete the Rollout at any point
+    (and then goes on with reconciles, workload progress, approvals, clock, crashes, further deletes): no reconciler
+    panics, every legal label can be taken, and the state satisfies the forward invariant or the deletion invariant —
+    in particular the BatchRelease executor's batch index stays inside the plan while the Rollout is torn down and after
+    it is gone.  (partial: no release / rollback during a rollout, no disabling, no API faults inside a reconcile) -/
+theorem loop_total_delete_partial (s0 s : CS) (ls : List Label) (h0 : Init s0) (hr : ReachD s0 ls s) :
+    (fwdInv s = true ∨ delInv s = true) ∧ step s .ro ≠ none ∧ step s .br ≠ none ∧
+    ∀ l, legalD s l = true → ∃ s', step s l = some s' := by
+  have h : fwdInv s0 = true ∨ delInv s0 = true := Or.inl (init_inv s0 h0)
+  clear h0
+  induction hr with
+  | nil s =>
+    refine ⟨h, ?_, ?_, fun l hl => ?_⟩
+    · obtain ⟨t, ht, _⟩ := safe_step s .ro h rfl; rw [ht]; simp
+    · obtain ⟨t, ht, _⟩ := safe_step s .br h rfl; rw [ht]; simp
+    · obtain ⟨t, ht, _⟩ := safe_step s l h hl; exact ⟨t, ht⟩
+  | cons s s' s'' l ls hl hs _ ih =>
+    obtain ⟨t, ht, hinv⟩ := safe_step s l h hl
+    rw [hs] at ht; cases ht
+    exact ih hinv
+
 /-! ### non-vacuity: concrete initial state, concrete histories (kernel evaluation of the model — tests, not the ∀ claims) -/
 
 /-- run a history, checking the legality of every label -/
@@ -461,6 +534,29 @@ example : (legalRun exS0 (.release "v2" :: (List.replicate 12 exRound).flatten +
 example : (legalRun exS0 (.release "v2" :: (List.replicate 40 exRound).flatten ++ [.release "v3", .env, .ro])).map
       (fun s => (s.ro.phase, s.ro.reason, s.br.isNone, s.wl.map (fun w => (w.updated, w.inProgressAnno)))) =
     some (.progressing, .initializing, true, some (0, true)) := by decide +kernel
+
+/-- run a history that may delete the Rollout, checking `legalD` -/
+def legalRunD (s : CS) : List Label → Option CS
+  | [] => some s
+  | l :: ls => if legalD s l then (match step s l with | some s' => legalRunD s' ls | none => none) else none
+
+theorem reachD_of_legalRunD (s s' : CS) (ls : List Label) (h : legalRunD s ls = some s') : ReachD s ls s' := by
+  induction ls generalizing s with
+  | nil => simp only [legalRunD, Option.some.injEq] at h; subst h; exact ReachD.nil s
+  | cons l ls ih =>
+    unfold legalRunD at h
+    split at h
+    · rename_i hl
+      split at h
+      · rename_i t ht; exact ReachD.cons s t s' l ls hl ht (ih t h)
+      · cases h
+    · cases h
+
+/-- test: the Rollout deleted in the middle of step 1 (BatchRelease progressing, 2 of 10 pods updated): 16 rounds later the
+    clean-up has run, the Rollout object is gone and no BatchRelease is left -/
+example : (legalRunD exS0 (.release "v2" :: (List.replicate 9 exRound).flatten ++ [.delete] ++ (List.replicate 16 exRound).flatten)).map
+      (fun s => (s.gone, s.br.isNone, s.wl.map (fun w => (w.partition, w.owner)))) =
+    some (true, true, some (none, .none)) := by decide +kernel
 
 /-- test: the ghost of the first history: on step 1 in `StepUpgrade`, nothing observed yet -/
 example : RV.Oracle.ClosedLoop.traceOK (Ghost.fresh 0) exS0
